@@ -7,6 +7,13 @@ import ProcSim.Lemmas.Routes
 register and at least one touch is a write, the earlier instruction is shown performing its touch (unstalled in the unit
 that locks registers for reading, resp. writing) in a strictly earlier cycle than the later one performs its own."
 
+"Replaying reads and writes in diagram order therefore gives every instruction the operand values, and the register file
+the final contents, of sequential execution (no RAW, WAR or WAW violation)."
+
+* first sentence: `C01_hazard_order` (the checker `Spec.C01`, clauses RAW / WAW / WAR over `Ctx.accs`), for returned
+  and stall diagrams; readable consequences `C01_access_once`, `C01_write_order`, `C01_reads_from`, `C01_final_writer`, …
+* second sentence: `C01_replay_eq_sequential` (for returned diagrams: `replay` of the diagram = `seqRun`, for an
+  arbitrary operation and initial register file), with `C01_access_exists` (every access is performed);
 * the checker: `Spec.C01` (`ProcSim/Spec/Sim.lean`), clauses RAW / WAW / WAR over `Ctx.accs`;
 * proof: `ProcSim/Lemmas/Hazards.lean` — the access plan (`buildPlan_get`), the queue invariant `PlanInv`
   (every queue = the plan's requests not yet shown granted), the host invariant `HazInv` (walk of every hosted
